@@ -135,3 +135,11 @@ def run(tier, seed, mutant=None, only_validate=False):
 def canaries(tier, seed):
     r = run("quick", seed, mutant="partition_no_cancel", only_validate=True)
     return [dict(name="mutant:partition_no_cancel", detected=bool(r.violations), rejected=len(r.violations))]
+
+
+TRACE_MODULE = "AsyncPartitionTrace"
+
+
+def replay(v):
+    import sys as _s
+    return amod.replay_node(_s.modules[__name__], v)
